@@ -37,6 +37,7 @@ inductive Err where
   | mapNotModelled           -- receiver is a map: belongs to C15, not modelled here
   | noLength                 -- "Value of type .. has no length"
   | notReversible            -- "Value of type .. cannot be reversed"
+  | notIterable              -- "Iteration not possible on type .."
   deriving Repr, DecidableEq
 
 /-- Result of a modelled Rust call. -/
@@ -368,5 +369,25 @@ def strForLoop (content : List Nat) :
 def strFor (content : List Nat) : Res (List (List Nat × LoopData)) :=
   strForLoop content (charsCount content + 1) 0 (charsCount content) (loopInit (charsCount content))
     false []
+
+/-! ### list comprehensions `[e for v in xs]` (compiler.rs `Expression::ListComprehension`) -/
+
+/-- The items `create_for_loop_iterator` yields for a container (maps: C15/C03, not modelled):
+a string goes by characters, each a normal one-character string; bytes go as u64. -/
+def iterItems : Value → Res (List Value)
+  | .str _ s => .ok (iterChars s)
+  | .arr xs => .ok xs
+  | .bytes bs => .ok (bs.map Value.u64)
+  | .map _ => .err .mapNotModelled
+  | _ => .err .notIterable          -- `can_be_iterated_on()` is false
+
+/-- `BuildList(0); <target>; StartIterateComprehension; StoreLocal v; Iterate; <expr>;
+AppendToList; Jump; PopLoop` with the body `body` applied to each item: the result is always a
+new list with one entry per pass. -/
+def comprehension (body : Value → Value) (target : Value) : Res Value :=
+  (iterItems target).bind fun items => .ok (.arr (items.map body))
+
+/-- The identity comprehension `[v for v in xs]`. -/
+def identityComprehension (target : Value) : Res Value := comprehension id target
 
 end Tera.Index
